@@ -17,7 +17,7 @@ from .. import gen, model as M, refmodel as R
 
 QUERIES = ["edge.calc_error", "edge.calc_chi2", "edge.calc_jacobians", "BaseEdge.calc_jacobians(numerical)", "edge.calc_chi2_gradient_hessian", "graph.calc_chi2",
            "graph._calc_chi2_gradient_hessian", "pose.equals", "vertex.equals", "edge.equals", "graph.equals", "graph.to_g2o", "vertex.to_g2o", "edge.to_g2o", "pose.operators",
-           "pose.jacobians", "pose.accessors", "pose.copy-independence", "edge.is_valid"]
+           "pose.jacobians", "pose.accessors", "pose.copy-independence", "edge.is_valid", "plot"]
 RULE = ("cases from rng(seed, 15, 0, i): a cluster graph (all pose types, parallel edges, landmarks with offsets, custom edges with numerical Jacobians; every 5th graph has no fixed vertex and is anchored by pose priors) and a history of "
         "20..50 calls drawn from " + ", ".join(QUERIES) + " plus optimize(max_iter 1..3); snapshot compared around each call. distinct = fingerprint(spec, history); "
         "non-trivial = history with >= 1 numerical-Jacobian call on an SE(2)/SE(3) vertex and >= 1 optimize run.")
@@ -157,6 +157,26 @@ def do_query(q, g, g_other, rng, scratch):
         return f, info
     if q == "edge.is_valid":
         return (lambda: bool(e.is_valid())), info
+    if q == "plot":
+        # drawing (matplotlib, off-screen backend) is a read-only operation as well: graph, one vertex, one edge
+        what = int(rng.integers(3))
+
+        def f():
+            import matplotlib.pyplot as plt
+
+            try:
+                if what == 0:
+                    g.plot(title="t")
+                elif what == 1:
+                    v.plot()
+                else:
+                    e.plot()
+            except Exception as ex:  # noqa: BLE001 - mixed 2-D / 3-D content may be undrawable; the state must be untouched all the same
+                return ("plot raised", type(ex).__name__)
+            finally:
+                plt.close("all")
+            return None
+        return f, info
     same = [x for x in g._vertices if type(x.pose) is type(v.pose)]
     u = same[int(rng.integers(len(same)))]
     info["operands"] = [v.pose, u.pose]
